@@ -7,6 +7,9 @@ checker): every check must stay silent (exit 0) on each rewritten copy.
 modes:  unparse   every module re-emitted by ast.unparse (comments, layout, parentheses, string quotes normalised)
         rename    additionally every function-local variable  x  is renamed  x_  (parameters, globals, attributes, names that a
                   nested scope rebinds are left alone)
+        messages  every string literal inside a raise / warnings.warn / print call gets a suffix (reworded messages)
+        docstrings  all docstrings removed
+        reorder   consecutive runs of module-level function definitions are reversed
         temps     (without renaming; `both` = rename + temps) the right-hand side of every plain  `name = <call or binop>`  assignment in a function body goes
                   through a fresh temporary   (_tN = rhs; name = _tN)
 """
@@ -138,6 +141,66 @@ class Temps(ast.NodeTransformer):
         return node
 
 
+class Messages(ast.NodeTransformer):
+    def __init__(self):
+        self.k = 0
+        self.inside = 0
+
+    def _mark(self, node):
+        self.inside += 1
+        self.generic_visit(node)
+        self.inside -= 1
+        return node
+
+    def visit_Raise(self, node):
+        return self._mark(node)
+
+    def visit_Call(self, node):
+        nm = node.func.attr if isinstance(node.func, ast.Attribute) else (node.func.id if isinstance(node.func, ast.Name) else '')
+        if nm in ('warn', 'print'):
+            return self._mark(node)
+        self.generic_visit(node)
+        return node
+
+    def visit_Constant(self, node):
+        if self.inside and isinstance(node.value, str) and len(node.value) > 3 and '%' not in node.value and '{' not in node.value:
+            self.k += 1
+            return ast.copy_location(ast.Constant(value=node.value + ' (reworded)'), node)
+        return node
+
+    def visit_JoinedStr(self, node):
+        return node
+
+
+def strip_docstrings(tree):
+    n = 0
+    for node in ast.walk(tree):
+        if isinstance(node, (ast.FunctionDef, ast.AsyncFunctionDef, ast.ClassDef, ast.Module)) and node.body:
+            b = node.body[0]
+            if isinstance(b, ast.Expr) and isinstance(b.value, ast.Constant) and isinstance(b.value.value, str):
+                if len(node.body) == 1:
+                    node.body[0] = ast.copy_location(ast.Pass(), b)
+                else:
+                    del node.body[0]
+                n += 1
+    return n
+
+
+def reorder_functions(tree):
+    n = 0
+    body = tree.body
+    i = 0
+    while i < len(body):
+        j = i
+        while j < len(body) and isinstance(body[j], ast.FunctionDef) and not body[j].decorator_list:
+            j += 1
+        if j - i >= 2:
+            body[i:j] = body[i:j][::-1]
+            n += j - i
+        i = max(j, i + 1)
+    return n
+
+
 def main():
     mode, src, dst = sys.argv[1:4]
     if os.path.exists(dst):
@@ -158,6 +221,14 @@ def main():
             tree = ast.parse(open(p, encoding='utf-8').read())
             if mode in ('rename', 'both'):
                 n_ren += rename_locals(tree)
+            if mode == 'messages':
+                t = Messages()
+                tree = t.visit(tree)
+                n_tmp += t.k
+            if mode == 'docstrings':
+                n_tmp += strip_docstrings(tree)
+            if mode == 'reorder':
+                n_tmp += reorder_functions(tree)
             if mode in ('temps', 'both'):
                 t = Temps()
                 tree = t.visit(tree)
